@@ -212,9 +212,33 @@ PENDING = ['C02', 'C03', 'C04', 'C05', 'C06', 'C07', 'C08', 'C09', 'C10', 'C11',
            'C16', 'C17', 'C18', 'C19', 'C20']
 
 
+SRC_TIE_TEXT = {
+    'Codec': 'the dedicated encoders/decoders of encode.py/decode.py, their dispatch tables and the range checks of checks.py',
+    'Tok': 'the Tokenizer state machine of tokenizer.py (_feed_status_byte, _feed_data_byte, feed_byte, feed)',
+    'Meta': 'check_int and the encode/decode/check methods of the numeric meta specs of meta.py',
+    'Vlq': 'encode_variable_int (meta.py) and read_variable_int (midifiles.py)',
+    'Tracks': '_to_abstime, _to_reltime, fix_end_of_track and merge_tracks of tracks.py',
+}
+SRC_TIE = {
+    'C01': ['Codec'], 'C02': ['Codec'], 'C03': ['Codec'],
+    'C04': ['Tok'], 'C05': ['Tok'], 'C06': ['Tok'], 'C18': ['Tok'], 'C19': ['Tok'],
+    'C07': ['Vlq', 'Tracks'], 'C08': ['Vlq'], 'C09': ['Meta', 'Vlq'], 'C12': ['Tracks'], 'C16': ['Tracks'],
+}
+
+
 def main():
     checks = []
     for pid, c in sorted(CHECKS.items()):
+        c = dict(c)
+        if pid in SRC_TIE:
+            what = '; '.join(SRC_TIE_TEXT[m] for m in SRC_TIE[pid])
+            c['text'] += (' SOURCE TIE: on every run ' + what + ' are translated from the source text of the working tree into Lean '
+                          '(harness/py2lean.py -> MidoModel/Generated/Src.lean) and theorems (MidoProofs/SrcTie) prove each translated '
+                          'definition equal to the hand model for all arguments, so an edit of these functions changes a proof '
+                          'obligation of this property.')
+            c['note'] += (' The translator and the operator semantics MidoModel/PySem.lean (compared with CPython each run) are trusted '
+                          'for the translated part; it resolves isinstance() from declared parameter types and gives lists value semantics.')
+            c['technique'] += '; translator from the Python source to Lean with machine-checked equivalence to the hand model'
         checks.append({
             'property_id': pid,
             'quick_cmd': f'/venv/bin/python check.py {pid} --tier quick',
@@ -241,7 +265,7 @@ def main():
             'path': 'check.py',
             'serves_properties': sorted(CHECKS),
             'kind_free_text': 'Lean 4 theorems over a hand-written executable model (lean/), tied to /repo by a differential '
-                              'correspondence check through a native line-protocol driver and by tables regenerated from the source',
+                              'correspondence check through a native line-protocol driver, by tables regenerated from the source, and for the byte-level core, the VLQ codec and tracks.py by a translator from the Python source text to Lean whose output is proved equal to the hand model',
         }],
         'checks': checks,
         'notes': 'See DESIGN.md. known_findings.json lists genuine defects (fixed / known).',
